@@ -412,6 +412,8 @@ Theorem uncompress_spec : forall p v, bytes_ok p -> parse p = Ok v ->
     records_at p (qe + 4) (map fst lxa) e1 /\ records_at p e1 (map fst lxn) e2 /\
     records_at p e2 (map fst lxr) (length p) /\
     Forall (fun rx => rdata_at p (fst rx) (snd rx)) (lxa ++ lxn ++ lxr) /\
+    hdr_ancount p = Ok (N.of_nat (length lxa)) /\ hdr_nscount p = Ok (N.of_nat (length lxn)) /\
+    hdr_arcount p = Ok (N.of_nat (length lxr)) /\
     uncompress p = Ok (firstn 12 p ++ plain_question qls qt CLASS_IN ++ concat (map plain_record (lxa ++ lxn ++ lxr))).
 Proof.
   intros p v Hb Hp.
@@ -432,6 +434,7 @@ Proof.
   exists qls, qt, qe, e1, e2, lxa, lxn, lxr.
   split; [constructor; exists qe; auto|]. split; [exact Hcn|]. split; [exact Hla|]. split; [exact Hln|]. split; [exact Hlr|].
   split; [apply Forall_app; split; [exact Hxa|apply Forall_app; split; assumption]|].
+  split; [rewrite Hlla, N2Nat.id; exact Han|]. split; [rewrite Hlln, N2Nat.id; exact Hns|]. split; [rewrite Hllr, N2Nat.id; exact Har|].
   assert (H12 : 12 < length p) by (destruct Hcn; lia).
   unfold uncompress, uncompress_with_previous_offset, DNS_HEADER_SIZE.
   destruct (length p <? 12) eqn:E12; [lia|]. rewrite Hp. cbn [bind]. rewrite Hq0. cbn [bind].
